@@ -122,6 +122,15 @@ def install_lib(it):
             return tuple(Key(child(key.e, z3.IntVal(n), z3.IntVal(i))) for i in range(n))
         raise TypeError("symbolic split count")
 
+    def resize(a, new_shape):
+        """numpy/jax resize: the flattened array is repeated cyclically (or truncated) to fill the new shape"""
+        if isinstance(a, DataArr) and isinstance(new_shape, (tuple, list)) and len(new_shape) >= 2:
+            nb, bs = lift(new_shape[0]), lift(new_shape[1])
+            cyc = DataArr(nb * bs, lambda i: a.prov(i % a.n), a.tag, a.rest)
+            return Batched(nb, bs, cyc)
+        raise TypeError("resize of a non-dataset value")
+
+    lib["jax.numpy.resize"] = resize
     lib["jax.random.permutation"] = permutation
     lib["jax.random.split"] = split
     lib["jaxtyping.Shaped"] = TypeMarker("Shaped", check=lambda v: isinstance(v, DataArr))
